@@ -15,6 +15,7 @@ import IsoVerif.Driver.C06
 import IsoVerif.Driver.C05
 import IsoVerif.Driver.C05Multi
 import IsoVerif.Driver.C05Contigs
+import IsoVerif.Driver.C05Names
 import IsoVerif.Driver.C10
 import IsoVerif.Driver.C09
 import IsoVerif.Driver.C08
@@ -52,6 +53,7 @@ def allOps : List (String × Handler) :=
   ++ prefixOps "C05" C05.ops
   ++ prefixOps "C05M" C05Multi.ops
   ++ prefixOps "C05C" C05C.ops
+  ++ prefixOps "C05N" C05N.ops
   ++ prefixOps "C10" C10.ops
   ++ prefixOps "C09" C09.ops
   ++ prefixOps "C08" C08.ops
